@@ -11,6 +11,8 @@ import (
 	"time"
 
 	"github.com/openconfig/gnmi/proto/gnmi"
+	"github.com/sdcio/data-server/pkg/config"
+	"github.com/sdcio/data-server/pkg/datastore/target"
 	sdcpb "github.com/sdcio/sdc-protos/sdcpb"
 	"google.golang.org/grpc"
 	"google.golang.org/grpc/codes"
@@ -618,3 +620,43 @@ func (d *GNMIDevice) Apply(deletes []IPath, updates Conf) int {
 	}
 	return n
 }
+
+// GNMITee is a southbound target made of the recording device and the REAL gnmiTarget of data-server talking to
+// an in-process gNMI device: every change is first recorded (proto rendering, harness decoders), then pushed through
+// gnmiTarget.Set in the configured encoding; the gNMI device applies what arrives with gNMI semantics.
+type GNMITee struct {
+	Dev  *Device
+	Real target.Target
+	GDev *GNMIDevice
+	mu   sync.Mutex
+	Errs []string
+}
+
+func (t *GNMITee) Get(ctx context.Context, req *sdcpb.GetDataRequest) (*sdcpb.GetDataResponse, error) {
+	return t.Real.Get(ctx, req)
+}
+
+func (t *GNMITee) Set(ctx context.Context, source target.TargetSource) (*sdcpb.SetDataResponse, error) {
+	rsp, err := t.Dev.Set(ctx, source)
+	if err != nil {
+		return rsp, err
+	}
+	if _, err := t.Real.Set(ctx, source); err != nil {
+		t.mu.Lock()
+		t.Errs = append(t.Errs, err.Error())
+		t.mu.Unlock()
+	}
+	return rsp, nil
+}
+
+func (t *GNMITee) TakeErrs() []string {
+	t.mu.Lock()
+	defer t.mu.Unlock()
+	e := t.Errs
+	t.Errs = nil
+	return e
+}
+
+func (t *GNMITee) Sync(ctx context.Context, c *config.Sync, ch chan *target.SyncUpdate) {}
+func (t *GNMITee) Status() *target.TargetStatus                                        { return t.Real.Status() }
+func (t *GNMITee) Close() error                                                        { return t.Real.Close() }
